@@ -27,7 +27,7 @@ type Monitor struct {
 	Required        []string // counters that must be > 0, else the run is inconclusive
 
 	// CaseCap is the hard wall-clock safety net per case; hitting it is
-	// inconclusive unless the hang detector shows quiescence. 0 = 120 s.
+	// inconclusive unless the hang detector shows quiescence. 0 = 10 min.
 	CaseCap time.Duration
 
 	// Setup runs once per child before the first case.
